@@ -134,6 +134,40 @@ def tlc_gen_replay(tag, module, consts, invariants, workers=None, timeout_s=1800
     return info, stats, viols
 
 
+def tlc_sim_replay(tag, module, consts, invariants, num, depth, seed, init, nxt, extra="", timeout_s=1200):
+    """TLC in simulation mode (random behaviours of the given depth), stdout piped into the replayer."""
+    d = os.path.join(WORK, tag)
+    shutil.rmtree(d, ignore_errors=True)
+    os.makedirs(d)
+    cfg = os.path.join(d, "mc.cfg")
+    write_cfg(cfg, consts, invariants, init, nxt, extra)
+    env = dict(os.environ, VERIF_DATA=os.path.join(ROOT, "data"))
+    tlc_cmd = ["timeout", str(timeout_s), TLC, "-workers", "4", "-simulate", "num=%d" % num, "-depth", str(depth),
+               "-seed", str(seed), "-metadir", os.path.join(d, "meta"), "-noGenerateSpecTE", "-config", cfg, module]
+    rp_cmd = [BIN, "replay", "--out", os.path.join(d, "stats.json"), "--viol", os.path.join(d, "viol.ndjson"),
+              "--workers", "6"]
+    t0 = time.time()
+    tlc = subprocess.Popen(tlc_cmd, cwd=SPEC, stdout=subprocess.PIPE, stderr=subprocess.STDOUT, env=env)
+    rp = subprocess.Popen(rp_cmd, cwd=d, stdin=tlc.stdout, stdout=subprocess.PIPE, stderr=subprocess.STDOUT, text=True)
+    tlc.stdout.close()
+    out, _ = rp.communicate()
+    tlc.wait()
+    open(os.path.join(d, "tlc.log"), "w").write(out)
+    if tlc.returncode == 124:
+        raise ToolError("TLC simulation timed out in stage %s" % tag)
+    errs = [l for l in out.splitlines() if l.startswith("Error:") or "is violated" in l]
+    if errs or rp.returncode != 0:
+        sys.stderr.write(out[-3000:])
+        raise ToolError("TLC simulation reported an error in stage %s: %s" % (tag, errs[:3]))
+    stats = json.load(open(os.path.join(d, "stats.json")))
+    viols = [json.loads(l) for l in open(os.path.join(d, "viol.ndjson"))]
+    m = re.search(r"(\d[\d,]*) states checked", out)
+    info = {"states": int(m.group(1).replace(",", "")) if m else stats["behaviours"] * depth, "wall_s": round(time.time() - t0, 1)}
+    log("sim stage %s: %d histories replayed (x2 modes), %d calls compared, mismatches %s, %.1fs" % (
+        tag, stats["behaviours"], stats["calls"], stats["mismatches"], info["wall_s"]))
+    return info, stats, viols
+
+
 def tlc_model(tag, module, consts, invariants, workers=None, timeout_s=1800, init="GInit", nxt="GNext", extra="",
               env_extra=None, simulate=None):
     """Model-check only (no replay). Returns tlcinfo + raw output."""
